@@ -9,6 +9,7 @@ package main
 //	g<N>[n] auto-tag: {enabled: true, uri-elements: N, no-tag-only: n present}
 //	v      the engine's logger accepts debug messages (BaseGun.DebugLog -> verboseLogging), written to io.Discard
 //	r      redirect: true (the gun's client follows redirects; the target's 301 answers point at followPath)
+//	c      dial: {dns-cache: false}: no pre-resolve of a host-name target, no DNS cache; the dialer resolves on every dial
 //	2      gun type http2 instead of http (TLS targets only; the target then speaks h2)
 //
 // None of them may change what reaches the target (theorems C09_gun_options_invisible, C09_body_any_gun_options) nor the
@@ -28,14 +29,15 @@ import (
 const followPath = "/__hC09_followed"
 
 type gunOpts struct {
-	answlog   string // "", all, warning, error
-	dump      bool
-	trace     bool
-	autotag   int // 0 = off, else uri-elements
-	noTagOnly bool
-	debug     bool
-	redirect  bool
-	h2        bool
+	answlog    string // "", all, warning, error
+	dump       bool
+	trace      bool
+	autotag    int // 0 = off, else uri-elements
+	noTagOnly  bool
+	debug      bool
+	redirect   bool
+	h2         bool
+	noDNSCache bool
 }
 
 // parseKA: the keep-alive field with its option suffix
@@ -64,6 +66,8 @@ func parseKA(field string) (ka bool, o gunOpts, ok bool) {
 			o.debug = true
 		case t == "r":
 			o.redirect = true
+		case t == "c":
+			o.noDNSCache = true
 		case t == "2":
 			o.h2 = true
 		case strings.HasPrefix(t, "g"):
@@ -96,6 +100,9 @@ func (o gunOpts) apply(gun map[string]any) {
 	}
 	if o.redirect {
 		gun["redirect"] = true
+	}
+	if o.noDNSCache {
+		gun["dial"] = map[string]any{"dns-cache": false}
 	}
 	if o.h2 {
 		gun["type"] = "http2"
@@ -138,6 +145,9 @@ func genOptTokens(r *vh.Rand, allowRedirect bool) string {
 	}
 	if allowRedirect && r.Chance(1, 4) {
 		ts = append(ts, "r")
+	}
+	if r.Chance(1, 5) {
+		ts = append(ts, "c")
 	}
 	return strings.Join(ts, ".")
 }
